@@ -573,7 +573,7 @@ func (c *Check) nodeletIDs() {
 	type pair struct{ a, b ssa.Value }
 	var pairs []pair
 	var first token.Pos
-	var declAt ssa.Instruction   // the call that writes the declaration "N<i>_<k> [..."
+	var declAt ssa.Instruction  // the call that writes the declaration "N<i>_<k> [..."
 	var useAt []ssa.Instruction // the other calls that name the nodelet
 	for _, b := range f.Blocks {
 		for _, ins := range b.Instrs {
